@@ -243,7 +243,8 @@ func (s *State) evalInternal(node any) object.Object { //nolint:funlen,gocognit,
 			return s.evalAssignment(s.Eval(node.Right), node)
 		}
 		// Humans expect left to right evaluations.
-		left := s.Eval(node.Left)
+		// CopyRegister: the left value must not change if evaluating the right side modifies the register (a + f(--a)).
+		left := object.CopyRegister(s.Eval(node.Left))
 		if left.Type() == object.ERROR {
 			return left
 		}
@@ -387,6 +388,7 @@ func (s *State) evalMapLiteral(node *ast.MapLiteral) object.Object {
 		if key.Type() == object.ERROR {
 			return key
 		}
+		key = object.Value(key) // store values, not live registers (integer parameters, loop variables).
 		if !object.Equals(key, key) {
 			log.Warnf("key %s is not hashable", key.Inspect())
 			return s.NewError("key " + key.Inspect() + " is not hashable")
@@ -395,7 +397,7 @@ func (s *State) evalMapLiteral(node *ast.MapLiteral) object.Object {
 		if value.Type() == object.ERROR {
 			return value
 		}
-		result = result.Set(key, value)
+		result = result.Set(key, object.Value(value))
 	}
 	return result
 }
